@@ -30,3 +30,6 @@ func verifTraceSelfCopy(c IndexChunk, segment SeedSegment) {}
 
 // verifTracePlan records the validated plan of AssembleFile. No-op unless built with 'verif'.
 func verifTracePlan(attempt int, plan Plan, seeds []Seed) {}
+
+// verifTraceBool records an event with a flag. No-op unless built with 'verif'.
+func verifTraceBool(ev string, flag bool) {}
